@@ -231,6 +231,9 @@ TABLE.update({
     "c02_expand_nested_merge_not_flattened.diff": ("box", "contracts.c12:expand_merges:expand_merges_arg_sets", None),
     "c12_expand_source_not_resolved.diff": ("box", "contracts.c12:expand_merges:expand_merges_arg_sets", None),
     "c02_expand_merge_origin_forgotten.diff": ("box", "contracts.c12:expand_merges:expand_merges_arg_sets", None),
+    "c12_network_conflicts_not_added.diff": ("box", "contracts.c12:plan_colors:arg_sets(quick)", None),
+    "c12_colouring_not_seeded_from_locks.diff": ("box", "contracts.c12:plan_colors:arg_sets(thorough)", None),
+    "c02_each_wire_not_a_bundle_wire.diff": ("box", "contracts.c12:plan_colors:arg_sets(quick)", None),
     "c06_bundle_wire_conflict_ignored.diff": ("box", "contracts.c12:plan_colors:arg_sets(quick)", None),
     "c02_gate_bundle_back_on_green.diff": ("box", "contracts.c02:locked_colors:locked_colors_arg_sets", None),
     "c02_gate_condition_not_locked.diff": ("box", "contracts.c02:locked_colors:locked_colors_arg_sets", None),
